@@ -14,7 +14,10 @@ func init() {
 		ruleGRDcrc(w, r)
 		ruleCDC6b(w, r)
 		ruleGRDscan(w, r)
-		ruleORD11(w, r) // the offset a resync starts from never lags behind the frames already applied
+		ruleORD11(w, r)       // the offset a resync starts from never lags behind the frames already applied
+		ruleCDC16(w, r)       // writer and reader agree on the frame size limit
+		ruleGRDownParse(w, r) // arguments read back byte for byte: none is a window into the reader's buffer
+		ruleORD15(w, r)       // still applies every intact command after a damaged region
 	})
 }
 
@@ -49,6 +52,9 @@ func init() {
 		ruleORD8(w, r)
 		ruleCDC13(w, r) // a vector acknowledged while a snapshot ran keeps its metadata across the restart
 		ruleORD12(w, r) // a write acknowledged right after a snapshot never precedes older shadow writes in the log
+		ruleCDC14(w, r) // a vector added while a snapshot runs is in the saved map and the saved nodes, or in neither
+		ruleORD14(w, r) // a write acknowledged after Close would be in no log
+		ruleCDC15(w, r) // a link acknowledged during a snapshot is applied once, not twice
 	})
 }
 
@@ -64,6 +70,7 @@ func init() {
 		ruleORD4(w, r)      // a refused compaction/snapshot must not end someone else's shadow mode
 		ruleEFFcreate(w, r) // duplicate index name: rejected means unchanged
 		ruleJRN6(w, r)      // unsupported metric/precision: refused before the journal write
+		ruleORD9(w, r)      // a rejected batch leaves the operation gate balanced: the next snapshot does not hang
 	})
 	register("C01", "clean restart reproduces the pre-shutdown state", func(w *World, r *Report) {
 		ruleJRN12(w, r, nil)
@@ -84,6 +91,8 @@ func init() {
 		ruleORD12(w, r)      // clean restart: the newest acknowledged value wins, also for writes that raced the end of a snapshot
 		ruleGRDasyncrm(w, r) // drop, re-create, add under one name: the new arena is not deleted by the old drop
 		ruleJRN6(w, r)       // a refused create does not mask a later valid one on replay
+		ruleCDC14(w, r)      // the snapshot is a consistent cut of node slice and id map
+		ruleCDC16(w, r)      // an acknowledged record is one the next start can read
 	})
 }
 
@@ -94,15 +103,17 @@ func init() {
 		ruleGRDorder(w, r)
 		ruleGRDxlate(w, r)
 		ruleGRDscope(w, r)
-		ruleSIBviews(w, r)      // graph-scoped search reads the reverse view: both views must agree
-		ruleGRDdupcheck(w, r)   // no duplicates: one live node per external id
-		ruleORDdel(w, r)        // a deleted vector takes its secondary-index entries with it (text/filter hits)
-		ruleCDC8(w, r)          // … and stays deleted across a restart (tombstones reach snapshot-restored indexes)
-		ruleGRDdescent(w, r)    // live vectors stay findable when the top layer holds only tombstones
-		ruleCDC10(w, r)         // graph scope is built from whole node ids
-		ruleGRDalias(w, r)      // a filter result that aliases the stored bitmap is narrowed in place by the search
-		ruleGRDfusionNorm(w, r) // the text maximum is taken over the in-scope documents
-		ruleGRDorphan(w, r)     // a live vector that no search can reach is missing from every result
+		ruleSIBviews(w, r)          // graph-scoped search reads the reverse view: both views must agree
+		ruleGRDdupcheck(w, r)       // no duplicates: one live node per external id
+		ruleORDdel(w, r)            // a deleted vector takes its secondary-index entries with it (text/filter hits)
+		ruleCDC8(w, r)              // … and stays deleted across a restart (tombstones reach snapshot-restored indexes)
+		ruleGRDdescent(w, r)        // live vectors stay findable when the top layer holds only tombstones
+		ruleCDC10(w, r)             // graph scope is built from whole node ids
+		ruleGRDalias(w, r)          // a filter result that aliases the stored bitmap is narrowed in place by the search
+		ruleGRDfusionNorm(w, r)     // the text maximum is taken over the in-scope documents
+		ruleGRDorphan(w, r)         // a live vector that no search can reach is missing from every result
+		ruleLCK10(w, r)             // search returns only live ids
+		ruleGRDverbatimHybrid(w, r) // the filter of a hybrid query is evaluated as written
 	})
 }
 
@@ -116,9 +127,11 @@ func init() {
 		ruleSIBnumtypes(w, r)
 		ruleSIBnumconv(w, r)
 		ruleGRDverbatimFilter(w, r)
-		ruleGRDstaleLookup(w, r) // an inner index map read before the pruning of old entries is not written afterwards
-		ruleGRDverbatimKey(w, r) // string equality asks the inverted index for the value as written
-		ruleCDC13(w, r)          // filters select the same vectors after a restart, also for adds that raced a snapshot
+		ruleGRDstaleLookup(w, r)    // an inner index map read before the pruning of old entries is not written afterwards
+		ruleGRDverbatimKey(w, r)    // string equality asks the inverted index for the value as written
+		ruleCDC13(w, r)             // filters select the same vectors after a restart, also for adds that raced a snapshot
+		ruleGRDverbatimHybrid(w, r) // quoted values reach the evaluator byte for byte
+		ruleGRDreindex(w, r)        // the index entries of a value the node no longer has are removed
 	})
 }
 
@@ -130,7 +143,9 @@ func init() {
 		ruleCDC123(w, r, map[string]bool{"GLINK": true, "GUNLINK": true})
 		ruleCDC4(w, r, map[string]bool{"GLINK": true, "GUNLINK": true})
 		ruleGRDtime(w, r)
-		ruleJRN5(w, r) // a link request that names an inverse relation is not acknowledged from a look at the forward edge alone
+		ruleJRN5(w, r)         // a link request that names an inverse relation is not acknowledged from a look at the forward edge alone
+		ruleCDC15(w, r)        // history survives restart: a record applied twice adds no version
+		ruleGRDrevAppend(w, r) // the two views agree at every instant
 	})
 	register("C11", "graph queries compute exact bounded reachability and shortest paths", func(w *World, r *Report) {
 		ruleGRDbfs(w, r, []bfsSpec{{"pkg/engine", "Engine.resolveGraphFilter", 5}, {"pkg/engine", "Engine.VExtractSubgraph", 5}, {"pkg/engine", "Engine.FindPath", 0}}, "GRD-bfs")
@@ -138,13 +153,16 @@ func init() {
 		ruleGRDtime(w, r)
 		ruleSIBviews(w, r) // the backward frontier and incoming scope read the reverse view: it must mirror the forward one
 		ruleCDC10(w, r)
-		ruleGRDreslice(w, r) // the next frontier never shares its backing array with the frontier being expanded
+		ruleGRDreslice(w, r)       // the next frontier never shares its backing array with the frontier being expanded
+		ruleGRDpathExhausted(w, r) // every traversal terminates: the rounds end with the frontiers
+		ruleGRDrevAppend(w, r)     // as-of queries through the incoming view see the edge from its first link on
 	})
 	register("C12", "deleting a node leaves no live edge to or from it", func(w *World, r *Report) {
 		ruleSIB4(w, r)
 		ruleSIBviews(w, r)
 		ruleCDC10(w, r)         // the cascade names each neighbour by the node id it takes out of the graph id
 		ruleGRDcascadeAll(w, r) // every edge of the deleted node is unlinked, whatever its other end is
+		ruleLCK7emit(w, r)      // a panic in the delete's event emission would skip the cascade
 	})
 }
 
@@ -165,6 +183,11 @@ func init() {
 		ruleORD8b(w, r)
 		ruleGRDclosed(w, r, lr)
 		ruleORD6(w, r)
+		ruleORD14(w, r)            // calls after Close fail cleanly: none is acknowledged into a queue nobody drains
+		ruleLCK10(w, r)            // delete vs metadata merge on one node: as if one at a time
+		ruleGRDpathExhausted(w, r) // every call returns in bounded time
+		ruleGRDchancap(w, r)       // every call returns in bounded time
+		ruleORD9(w, r)             // lost updates: a snapshot does not miss an operation that is between journal and apply
 	})
 }
 
@@ -186,6 +209,10 @@ func init() {
 		ruleCDC10(w, r)            // ids that contain the graph separator are read back whole
 		ruleGRDtrainedEnsure(w, r) // a vector stored through an untrained quantizer reads back as zeros
 		ruleGRDclockid(w, r)       // two evolutions of one memory in the same second must get different ids
+		ruleEFFevolveFlag(w, r)    // a memory evolved twice still has a current version
+		ruleGRDdimension(w, r)     // delete everything, add a vector of another dimension: refused, not cut
+		ruleGRDchancap(w, r)       // get-many returns for any number of ids
+		ruleGRDcommaok(w, r)       // a key set to the empty value is a key
 	})
 }
 
@@ -198,6 +225,9 @@ func init() {
 		ruleWEBverbatim(w, r)
 		ruleGRDfusionNorm(w, r)                                                              // max-normalised text score: the maximum of the list that is fused
 		ruleGRDmaporder(w, r, [][2]string{{"pkg/engine", "Engine.detectTextFieldForIndex"}}) // which text field a hybrid query is scored on does not depend on map order
+		ruleLCK10(w, r)                                                                      // a deleted document does not come back into the text index
+		ruleGRDreindex(w, r)                                                                 // document counts and lengths always equal those of the current corpus
+		ruleWEBverbatimAlpha(w, r)                                                           // alpha = 0 orders purely by text relevance, also over HTTP
 	})
 	register("C15", "memory decay and reinforcement obey their stated laws", func(w *World, r *Report) {
 		ruleTBLmodels(w, r)
@@ -209,7 +239,10 @@ func init() {
 		ruleSIBmetatypes(w, r)
 		ruleGRDdecaylocal(w, r)
 		ruleUNI2(w, r)
-		ruleGRDfreshcfg(w, r) // the layer table of one index is not the layer table of every index
+		ruleGRDfreshcfg(w, r)       // the layer table of one index is not the layer table of every index
+		ruleGRDlogarg(w, r)         // the decay factor is a number between 0 and 1, whatever count the metadata carries
+		ruleGRDlayersVerbatim(w, r) // a layer configured without decay is found under the name it was configured with
+		ruleGRDreinforceAll(w, r)   // reinforcing increases the access count by exactly one, pinned or not
 	})
 }
 
@@ -223,6 +256,7 @@ func init() {
 		ruleJRN12(w, r, func(sc sinkCall) bool {
 			return relPkg(sc.fi.Obj) == "pkg/auth" || relPkg(sc.fi.Obj) == "internal/server"
 		})
+		ruleWEB11(w, r) // a read token cannot read the root token out of /debug/pprof/cmdline
 	})
 }
 
@@ -240,6 +274,7 @@ func init() {
 		ruleWEB10(w, r)        // no raw request string becomes a metric label (WithLabelValues panics on invalid UTF-8)
 		ruleEFFcreate(w, r)    // a create answered 409 leaves the index that owns the name untouched
 		ruleGRDdimension(w, r) // the wrong-dimension guard cannot be switched off by deleting one vector
+		ruleGRDlevelmult(w, r) // m = 1 in a create request must not wedge the index
 	})
 }
 
@@ -262,8 +297,9 @@ func init() {
 		ruleLCK5f(w, r, lr, func(g string) bool {
 			return strings.HasPrefix(g, "mmap.VectorArena.") || strings.HasPrefix(g, "distance.Quantizer.") || g == "hnsw.Index.activeMu"
 		})
-		ruleGRDtrainedEnsure(w, r) // the 'is it trained' question is asked of the current quantizer on every call
-		ruleGRDquerynorm(w, r)     // an int8 cosine query is quantised in the range trained on unit-length vectors
+		ruleGRDtrainedEnsure(w, r)   // the 'is it trained' question is asked of the current quantizer on every call
+		ruleGRDquerynorm(w, r)       // an int8 cosine query is quantised in the range trained on unit-length vectors
+		ruleGRDcloseKeepsFiles(w, r) // reopen: no chunk file disappears at Close
 	})
 }
 
@@ -277,6 +313,7 @@ func init() {
 		ruleGRDinval(w, r)
 		ruleGRDclockid(w, r)   // two answers cached in the same second must get different ids
 		ruleGRDmatchdist(w, r) // an identical prompt (similarity rounding above 1) is still the closest match
+		ruleGRDinvalAll(w, r)  // an invalidated source is gone from the cache, whatever the cap
 	})
 }
 
@@ -307,9 +344,12 @@ func init() {
 		ruleGRDrelink(w, r)
 		ruleGRDquerynorm(w, r)
 		ruleGRDdescent(w, r)
-		ruleGRDwiden(w, r)       // the distances the graph is built and searched with
-		ruleCDC12(w, r)          // a restart must not lose the tombstones live nodes link through
-		ruleGRDorphan(w, r)      // delete everything, add again: the new vectors must be reachable
-		ruleGRDbatchrounds(w, r) // batch insert: nodes of one batch can find each other
+		ruleGRDwiden(w, r)            // the distances the graph is built and searched with
+		ruleCDC12(w, r)               // a restart must not lose the tombstones live nodes link through
+		ruleGRDorphan(w, r)           // delete everything, add again: the new vectors must be reachable
+		ruleGRDbatchrounds(w, r)      // batch insert: nodes of one batch can find each other
+		ruleGRDlevelmult(w, r)        // the level multiplier is finite
+		ruleGRDtombstoneStorage(w, r) // a restart re-attaches the vector of every tombstone
+		ruleGRDnoQueryShortcut(w, r)  // a stored vector is retrieved by its own value, also the zero vector
 	})
 }
